@@ -605,9 +605,14 @@ func runC14(c *engine.Ctx) {
 							mke := func(v *gen.Node) []byte {
 								st := j.step.Clone()
 								st.Del("signature")
-								if where == 0 {
+								switch {
+								case where == 0 && v == nil:
+									st.Set("env", gen.Map())
+								case where == 0:
 									st.Set("env", gen.Map().Set("BKSIM_N", v))
-								} else {
+								case v == nil:
+									st.Set("matrix", gen.Seq(gen.Str("plain")))
+								default:
 									st.Set("matrix", gen.Seq(gen.Str("plain"), v))
 								}
 								cs := new(pipeline.CommandStep)
@@ -631,6 +636,8 @@ func runC14(c *engine.Ctx) {
 								{"null and the text <nil>", gen.Null(), gen.Str("<nil>")},
 								{"null and the text null", gen.Null(), gen.Str("null")},
 								{"true and 1", gen.Bool(true), gen.Int(1)},
+								{"a null entry and no entry at all", gen.Null(), nil},
+								{"an empty-string entry and no entry at all", gen.Str(""), nil},
 								{"2^64-1 and -1", gen.Uint(18446744073709551615), gen.Int(-1)},
 								{"2^63 and -2^63", gen.Uint(9223372036854775808), gen.Int(-9223372036854775808)},
 							}
